@@ -404,55 +404,57 @@ def every_rules_file_kept(ctx):
     de-duplication or early exit), and returns the error otherwise"""
     rule = "R-C09-partition"
     cr = ctx.bin
-    keys = sorted(k for k in cr.fns if k.startswith("commands::validate::get_rule_info::{closure#"))
-    done = False
-    for k in keys:
-        f = cr.fns[k]
-        if f["argc"] != 3 or M.Ty(cr, f["locals"][3]).adt_path() != ai.RESULT:      # the try_fold closure: (env, accumulator, item: Result<..>)
-            continue
-        done = True
+    key = "commands::validate::get_rule_info"
+    f = cr.fns.get(key)
+    if not f:
+        ctx.lost(rule, rule + ":every-rules-file-kept", key)
+    else:
         rets = []
 
         class H(ai.Hooks):
+            """runs get_rule_info itself; a try_fold/fold closure is interpreted as the loop it stands for (engine model), so the rule does
+            not depend on whether the per-file step is written as a closure or as a `for` body"""
+
+            def inline(self, a, st, k, fn):
+                return k.startswith(key + "::{closure")
+
             def ret(self, a, st, v):
-                rets.append((v, st.mon or Mon(), a.resolve(st, a.read_place(st, st.frames[0], 3)) if False else None))
+                rets.append((v, st.mon or Mon()))
 
             def call(self, a, st, term, callee, args):
                 p = M.norm_path(callee.get("path", ""))
+                decl = M.norm_path(callee.get("decl", ""))
                 mon = st.mon or Mon()
-                if st.top is not st.frames[0]:
-                    return None
+                if decl == "std::iter::Iterator::next" and term.get("to") is not None:
+                    if mon.get("taken"):
+                        return [(("enum", ai.OPTION, 0, ()), mon)]
+                    return [(("enum", ai.OPTION, 1, (("enum", ai.RESULT, 0, (("sym", "FILE"),)),)), mon.set(taken=True, item="ok")),
+                            (("enum", ai.OPTION, 1, (("enum", ai.RESULT, 1, (("sym", "READ_ERR"),)),)), mon.set(taken=True, item="err")),
+                            (("enum", ai.OPTION, 0, ()), mon)]
                 if p == "std::vec::Vec::push":
                     return [(("tuple", ()), mon.set(pushes=mon.get("pushes", 0) + 1, pushed=ai.fmt_val(a.resolve(st, args[1]))[:60]))]
                 if p.endswith("Writer::write_err"):
                     return [(("enum", ai.RESULT, 0, (("tuple", ()),)), mon.set(reported=True)), (("enum", ai.RESULT, 1, (("sym", "IOERR"),)), mon.set(reported=True))]
                 return None
-
-            def constrained(self, a, st, sid, val):
-                if sid == "arg3" and val[0] == "enum" and val[1] == ai.RESULT:
-                    st.mon = (st.mon or Mon()).set(item="ok" if val[2] == 0 else "err")
         a = ai.AI(cr, H())
         try:
-            a.run(k, mon=Mon())
+            a.run(key, mon=Mon())
+            ctx.states += a.n_states
+            bad = []
+            n_ok = 0
+            for v, mon in rets:
+                is_ok = v[0] == "enum" and v[1] == ai.RESULT and v[2] == 0
+                if mon.get("item") == "ok":
+                    n_ok += 1
+                    if not is_ok:
+                        bad.append("a rules file that was read successfully makes the fold return an error")
+                    elif mon.get("pushes", 0) != 1 or "FILE" not in str(mon.get("pushed")):
+                        bad.append("a rules file that was read successfully is pushed %d times (%s): it is dropped / duplicated before evaluation" % (mon.get("pushes", 0), mon.get("pushed")))
+                elif mon.get("item") == "err" and is_ok:
+                    bad.append("a read error is swallowed (the fold continues with Ok)")
+            ctx.ob(rule, rule + ":every-rules-file-kept", not bad and n_ok >= 1, "; ".join(sorted(set(bad))[:2]) or "%d success paths, each pushes the item once" % n_ok, fn=f)
         except ai.Undecided as e:
             ctx.ob(rule, rule + ":every-rules-file-kept", False, "undecided %s" % e, fn=f)
-            return
-        ctx.states += a.n_states
-        bad = []
-        n_ok = 0
-        for v, mon, _ in rets:
-            is_ok = v[0] == "enum" and v[1] == ai.RESULT and v[2] == 0
-            if mon.get("item") == "ok":
-                n_ok += 1
-                if not is_ok:
-                    bad.append("a rules file that was read successfully makes the fold return an error")
-                elif mon.get("pushes", 0) != 1 or "arg3" not in str(mon.get("pushed")):
-                    bad.append("a rules file that was read successfully is pushed %d times (%s): it is dropped / duplicated before evaluation" % (mon.get("pushes", 0), mon.get("pushed")))
-            elif mon.get("item") == "err" and is_ok:
-                bad.append("a read error is swallowed (the fold continues with Ok)")
-        ctx.ob(rule, rule + ":every-rules-file-kept", not bad and n_ok >= 1, "; ".join(sorted(set(bad))[:2]) or "%d success paths, each pushes the item once" % n_ok, fn=f)
-    if not done:
-        ctx.lost(rule, rule + ":every-rules-file-kept", "the try_fold closure of commands::validate::get_rule_info")
     # ... and nothing removes entries from the collected lists of rules files / data files in Validate::execute
     EX = "<commands::validate::Validate as commands::Executable>::execute"
     removers = ("dedup", "dedup_by", "dedup_by_key", "retain", "retain_mut", "remove", "swap_remove", "truncate", "drain", "pop", "clear", "split_off")
